@@ -10,7 +10,7 @@ import (
 
 func init() {
 	register("C15", runC15, propMeta{
-		Explanation: "Ownership / escape argument for the local-variable store (a map[string]reflect.Value), sound modulo reflect and unsafe: (V1) the only such map that is not the injected table is allocated by a make in RuleEntity.Execute, once per call, and handed straight to RuleContent.Execute; it starts empty; (V2) in every function of the interpreter that has a parameter of that type, every argument of that type it passes on is that very parameter (so one rule execution threads one map and no other); (V3) a value of that type is never stored into a struct field (other than DataContext.base at construction), a package variable, a map, a slice or a channel, and no function returns one, so it cannot outlive or leave the rule execution; goroutines that capture it (conc) are joined before Evaluate returns (C18); (V4) locals are looked up and written only on the miss edge of a lookup of the same key in the injected table, and the injected table is written only by Add / PluginLoader / Del; (V5) injected names are shared by all rules of a call: every rule execution receives the data context of the call's own rule builder. Consequence: two rule executions never hold the same map, so a local cannot leak between rules, calls, goroutines or pool requests, and starts undefined.",
+		Explanation: "Ownership / escape argument for the local-variable store (a map[string]reflect.Value), sound modulo reflect and unsafe: (V1) the only such map that is not the injected table is allocated by a make in RuleEntity.Execute, once per call, and handed straight to RuleContent.Execute; it starts empty; (V2) in every function of the interpreter that has a parameter of that type, every argument of that type it passes on is that very parameter (so one rule execution threads one map and no other); (V3) a value of that type is never stored into a struct field (other than DataContext.base at construction), a package variable, a map, a slice or a channel, and no function returns one, so it cannot outlive or leave the rule execution; goroutines that capture it (conc) are joined before Evaluate returns (C18); (V4) locals are looked up and written only on the miss edge of a lookup of the same key in the injected table, and the injected table is written only by Add / PluginLoader / Del; (V5) injected names are shared by all rules of a call: every rule execution receives the data context of the call's own rule builder. (V7) package context writes through a reflect value only in SetMapVarValue: a local is assigned by replacing its table entry, never set in place. Consequence: two rule executions never hold the same map, so a local cannot leak between rules, calls, goroutines or pool requests, and starts undefined.",
 		Assumptions: []string{"no reflect/unsafe access to the map from injected host functions"},
 		Trusted:     commonTrusted,
 	})
@@ -85,6 +85,7 @@ func (c *Ctx) ruleOneStore(rule string) {
 			key := fnName(f) + "#make"
 			// uses
 			toBase, toExec, other := false, false, ""
+			helper := false
 			// the uses of the new map, looking through a private local variable it is first put in
 			var uses func(v ssa.Value, d int)
 			uses = func(v ssa.Value, d int) {
@@ -107,18 +108,41 @@ func (c *Ctx) ruleOneStore(rule string) {
 						}
 						other = "stored to " + x.Describe(r.Addr)
 					case *ssa.Call:
+						if bi, isB := r.Call.Value.(*ssa.Builtin); isB && (bi.Name() == "len" || bi.Name() == "delete") {
+							helper = true
+							continue
+						}
 						if calleeIs(r, pBase, "RuleContent", "Execute") && fnName(f) == "RuleEntity.Execute" {
 							toExec = true
 							continue
 						}
 						other = "passed to " + x.Describe(r)
 					case *ssa.DebugRef:
+					case *ssa.Lookup:
+						if r.X == v {
+							helper = true
+							continue
+						}
+						other = fmt.Sprintf("used by %T", ref)
+					case *ssa.MapUpdate:
+						if r.Map == v && r.Key != v && r.Value != v {
+							helper = true
+							continue
+						}
+						other = fmt.Sprintf("used by %T", ref)
+					case *ssa.Range:
+						helper = true
 					default:
 						other = fmt.Sprintf("used by %T", ref)
 					}
 				}
 			}
 			uses(mm, 0)
+			if helper && !toBase && !toExec && other == "" {
+				// a map of the same type used as a private table of this function (looked up, filled,
+				// ranged over; never handed on or stored): not a store of rule locals
+				return
+			}
 			if toBase && other == "" {
 				c.Check(rule, key, true, in.Pos(), "the injected table of a new data context")
 				return
@@ -135,6 +159,28 @@ func (c *Ctx) ruleOneStore(rule string) {
 func runC15(c *Ctx) {
 	// V1
 	c.ruleOneStore("V1-one-store-per-execution")
+	// V7: assigning a local replaces its entry in the table. The data context never writes *through* a
+	// value (reflect Set*): a local first read from a field or element of injected data holds an
+	// addressable value, and setting it in place would write into that injected object -- visible to
+	// every other rule and call. Only the element assignment (SetMapVarValue) may use reflect setters.
+	nSet := 0
+	for _, f := range c.AllFns {
+		if f.Pkg == nil || f.Pkg.Pkg.Path() != pContext {
+			continue
+		}
+		k := 0
+		eachInstr(f, func(in ssa.Instruction) {
+			name, cc := reflectMethod(in)
+			if cc == nil || !reflectMutators[name] {
+				return
+			}
+			nSet++
+			k++
+			root := fnName(rootOf(f))
+			c.Check("V7-locals-replaced-not-set-in-place", fmt.Sprintf("%s#%s%d", root, name, k), root == "DataContext.SetMapVarValue", in.Pos(), "reflect.Value.%s in %s: the data context may write through a value only for an element assignment; a local is assigned by replacing its table entry", name, root)
+		})
+	}
+	c.Check("V7-locals-replaced-not-set-in-place", "inventory", nSet > 0, 0, "%d reflect setter call(s) in package context examined", nSet)
 	// V2
 	for _, f := range c.AllFns {
 		if f.Pkg == nil {
